@@ -4,7 +4,7 @@ import "xvc/q"
 
 func init() {
 	register("C02", c02, PropInfo{
-		Explanation: "Structural necessary conditions of token conservation, decided on every CFG path of the current source: (K5/K1) in CheckInputEqualOutput the only nil exits are behind `inputSum.Cmp(outputSum)==0` or behind `inputSum==0 && tx.Coinbase`, with both sums accumulated from every output resp. from the STORED amount of every input, and the duplicate-input, amount-mismatch, frozen and storage-error tests each lead to rejecting exits only; (K2) doTxInternal reaches its first mutation only through the good edge of CheckInputEqualOutput unless the transaction is regulator-marked; (K3) the total supply is touched only by UpdateUtxoTotal, called only from doTxInternal (+, under tx.Coinbase) and undoTxInternal (-, under tx.Coinbase); (K5/K1) the award of a pushed block is compared with CalcAward(block.Height) and a mismatch rejects the block; producer and validator use the same CalcAward.",
+		Explanation: "Structural necessary conditions of token conservation, decided on every CFG path of the current source: (K5/K1) in CheckInputEqualOutput the only nil exits are behind `inputSum.Cmp(outputSum)==0` or behind `inputSum==0 && tx.Coinbase`, with both sums accumulated from every output resp. from the STORED amount of every input, and the duplicate-input, amount-mismatch, frozen and storage-error tests each lead to rejecting exits only; (K2) doTxInternal reaches its first mutation only through the good edge of CheckInputEqualOutput unless the transaction is regulator-marked; (K3) the total supply is touched only by UpdateUtxoTotal, called only from doTxInternal (+, under tx.Coinbase) and undoTxInternal (-, under tx.Coinbase); (K5/K1) the award of a pushed block is compared with CalcAward(block.Height) and a mismatch rejects the block; producer and validator use the same CalcAward; (K4/K2) the pool's dependency graph links every pending consumer to every pending producer it cites (token and key inputs) and undoUnconfirmedTx rolls back the graph's children of a transaction before the transaction itself.",
 		NotDecided:  "big-integer arithmetic, balance-cache bookkeeping, and that the sum over the UTXO table equals the reported total after any history (values over histories; not reachable by static analysis)",
 		Assumptions: []string{"math/big Cmp/Add/SetBytes have their documented meaning", "a kvdb batch is applied atomically"},
 	})
@@ -47,6 +47,13 @@ func c02(c *q.Ctx) {
 	}
 	// the fee output is materialised for, and removed from, the proposer under the same key (a stale cache entry is a spendable phantom)
 	feeInverse(c)
+	// the rollback of a pending family walks the pool's dependency graph: a consumer that is not linked to its
+	// pending producer stays applied when the producer is undone (its inputs reappear while its outputs remain)
+	poolGraph(c)
+	if uu := c.Fn(st + "(*State).undoUnconfirmedTx"); uu != nil {
+		c.NeverAfter(uu, q.ToCall("State.undoTxInternal"), q.ToCall("State.undoUnconfirmedTx"), "dependants are rolled back before the transaction itself, never after")
+		c.ArgIs(uu, "State.undoUnconfirmedTx", 1, "p2[p3[p1.Txid][]]", 1, "the dependants are the graph's children of this transaction")
+	}
 	// K3: who may change the total
 	callers := c.WhoCalls("UtxoVM.UpdateUtxoTotal", map[string]string{
 		st + "(*State).doTxInternal":   "play: + under tx.Coinbase",
